@@ -5,7 +5,7 @@ from hypothesis import strategies as st
 
 from vf.core import codec
 from vf.core.base import Violation
-from vf.core.env import FAULT, Env, InjectedFault, arm_fault, disarm_fault
+from vf.core.env import FAULT, Env, InjectedFault, arm_fault, disarm_fault, take_rows
 from vf.core.gen import Cfg, st_program
 from vf.core.proc import make_processor
 from vf.core.prog import BuildError, build_all, decode, describe_case, ev_list, fmt, kinds, lib_nodes, walk
@@ -254,7 +254,7 @@ def run_case(case, stats):
                                 want = ev_list(decode(n, env), leaves, check_fd=True)
                             except Exception:
                                 continue
-                            have = [dict(r) for r in n.payload]
+                            have = take_rows(n.payload)
                             if have != want:
                                 raise Violation(
                                     "cached-payload-wrong",
@@ -348,16 +348,16 @@ def run_case(case, stats):
                 try:
                     if via == "process":
                         first = proc.process(mat)
-                        got = [dict(r) for r in first.engine.execute(first)]
+                        got = take_rows(first.engine.execute(first))
                     else:
-                        got = [dict(r) for r in mat.engine.execute(mat)]
+                        got = take_rows(mat.engine.execute(mat))
                     if got != expected:
                         raise Violation("rows-differ", f"{label}: expected {expected[:6]} got {got[:6]}", step="lazy-marker")
                     if mat.payload is None and mat.max_rows != 0 and not mat.is_join_identity:
                         raise Violation("materialization-without-payload", f"{label}: the materialization has no payload after being evaluated", step="lazy-marker")
                     for again in (1, 2):
                         before = starts()
-                        got = [dict(r) for r in mat.engine.execute(mat)]
+                        got = take_rows(mat.engine.execute(mat))
                         after = starts()
                         if got != expected:
                             raise Violation("rows-differ", f"{label}, evaluation #{again + 1}: expected {expected[:6]} got {got[:6]}", step="lazy-marker")
@@ -405,10 +405,10 @@ def run_case(case, stats):
             got = None
             try:
                 if kind == "execute":
-                    got = [dict(r) for r in rel.engine.execute(rel)]
+                    got = take_rows(rel.engine.execute(rel))
                 else:
                     processed = proc.process(rel)
-                    got = [dict(r) for r in processed.engine.execute(processed)]
+                    got = take_rows(processed.engine.execute(processed))
             except Exception as e:
                 if not (faulty and injected(e)):
                     raise Violation("evaluation-raised", f"{label}: {type(e).__name__}: {str(e)[:300]}", sig=exc_sig(e))
